@@ -219,10 +219,23 @@ CNT = Counters()
 SLOT = {}
 
 
-def counting_loads(s):
+CRASH_BODY = b'"__handler_crash__"'
+
+
+class HandlerCrash(RuntimeError):
+    """An error of the media handler that is not an HTTP error (a bug in a custom loads(), a resource limit ...)."""
+
+
+def crashing_loads(s):
     import json
-    CNT.parses += 1
+    if (b'__handler_crash__' if isinstance(s, bytes) else '__handler_crash__') in s:
+        raise HandlerCrash('loads() failed')
     return json.loads(s)
+
+
+def counting_loads(s):
+    CNT.parses += 1
+    return crashing_loads(s)
 
 
 def bytes_dumps(obj):
@@ -363,11 +376,11 @@ def get_app(stack, flavour, sym):
             hs[vt] = JSONHandler(dumps=bytes_dumps, loads=counting_loads)
         elif flavour == 'wbytes':
             # ... and on a subclass (no fast path: serialize / serialize_async are called)
-            hs[falcon.MEDIA_JSON] = CountingJSON(dumps=bytes_dumps)
-            hs[vt] = CountingJSON(dumps=bytes_dumps)
+            hs[falcon.MEDIA_JSON] = CountingJSON(dumps=bytes_dumps, loads=crashing_loads)
+            hs[vt] = CountingJSON(dumps=bytes_dumps, loads=crashing_loads)
         else:
-            hs[falcon.MEDIA_JSON] = CountingJSON()
-            hs[vt] = CountingJSON()
+            hs[falcon.MEDIA_JSON] = CountingJSON(loads=crashing_loads)
+            hs[vt] = CountingJSON(loads=crashing_loads)
             hs[FORM] = CountingForm()
     if stack == 'asgi':
         inner = app
@@ -435,6 +448,8 @@ def body_outcome(ct, body):
             return ('unpinned-form',)     # lenient readings of broken forms are C08's business
     if body == b'':
         return ('notfound',)
+    if body == CRASH_BODY:
+        return ('crash',)           # the handler itself fails with a non-HTTP error: "a failed parse" all the same
     try:
         return ('val', J.decode(body))
     except J.Reject:
@@ -487,6 +502,8 @@ def check_history(rep, part, stack, flavour, sym, ct, body, hist, variant, bodyk
             want = 'ret-default' if op in ('getD1', 'getD2') else 'exc-notfound'
         elif out[0] == 'malformed':
             want = 'exc-malformed'
+        elif out[0] == 'crash':
+            want = 'exc-crash'
         else:
             want = 'ret-or-malformed'
         if want == 'ret-or-malformed':
@@ -510,7 +527,7 @@ def check_history(rep, part, stack, flavour, sym, ct, body, hist, variant, bodyk
                 return viol('default-not-honoured', op, 'empty body: call #%d must return the caller\'s default %r, got %s %r'
                             % (i + 1, d, kind, obj), exc=type(obj).__name__ if kind == 'exc' else '')
         else:
-            cls = MediaNotFoundError if want == 'exc-notfound' else MediaMalformedError
+            cls = MediaNotFoundError if want == 'exc-notfound' else (HandlerCrash if want == 'exc-crash' else MediaMalformedError)
             if kind != 'exc':
                 return viol('missing-error', op, 'model expects %s, call #%d returned %r' % (cls.__name__, i + 1, obj))
             if type(obj) is not cls and not (cls is MediaMalformedError and isinstance(obj, MediaMalformedError)):
@@ -536,7 +553,7 @@ def check_history(rep, part, stack, flavour, sym, ct, body, hist, variant, bodyk
                             % (i + 1, base[1:], (touches, pos)))
     # -- HTTP outcome ---------------------------------------------------------------
     last_kind = log[-1][0]
-    want_code = 200 if last_kind == 'ret' else 400
+    want_code = 200 if last_kind == 'ret' else (500 if out[0] == 'crash' else 400)
     if res.exc is not None or res.problems or res.code != want_code:
         return viol('http-status', hist[-1], 'expected HTTP %d, got %r (escaped exception %r, protocol problems %r)'
                     % (want_code, res.code, res.exc, res.problems), exc=type(res.exc).__name__ if res.exc else '')
@@ -833,7 +850,7 @@ def build_cases(tier, seed):
     # H: call histories
     hbodies = [(b'{"%s": 1}' % sym.encode(), 'valid'), (b'null', 'valid-falsy'), (b'0', 'valid-falsy'), (b'false', 'valid-falsy'),
                (b'""', 'valid-falsy'), (b'[]', 'valid-falsy'), (b'{}', 'valid-falsy'), (b'', 'empty'), (b' ', 'whitespace'),
-               (b'{', 'truncated'), (b'\xff', 'invalid-utf8'), (b'"\xe9"', 'latin-1')]
+               (b'{', 'truncated'), (b'\xff', 'invalid-utf8'), (b'"\xe9"', 'latin-1'), (CRASH_BODY, 'handler-crash')]
     maxlen = 3 if quick else 4
     for body, bk in hbodies:
         for ct in json_cts(sym):
